@@ -1,51 +1,55 @@
 """C01 - element-wise operators.
 
-L1 (struct level): for every (operator, kind) arm found in /repo's dispatch tables and every storage-form pair of the
-default configuration, build the generated function struct with symbolic cells, call its real `solve()`, and compare
-every output element with the scalar Rust operator of that kind applied to the broadcast operands (operand order is part
-of the formula).  Rider (C19): scribble over `out`, solve again, same result; inputs unchanged.
+L1 (struct level, default features): for every (operator, kind) arm of /repo's dispatch tables and every storage-form
+pair of the default configuration, build the generated function struct with symbolic cells, call its real `solve()`,
+and compare every output element with the scalar Rust operator of that kind applied to the broadcast operands (operand
+order is part of the formula).  Rider (C19): scribble over `out`, solve again, same result; inputs unchanged.
+
+L2 (dispatch level, per-kind feature slice, kissat): call the private dispatch function `impl_<op>_fxn(lhs, rhs)` with
+stack-built `Value`s, then the returned `Box<dyn MechFunction>`'s `solve()` and `out()`.  accept domain: every
+compatible form pair must be accepted, the result must have the broadcast shape and the right elements.  reject domain:
+incompatible shapes must end in `Err` or a panic (the interpreter turns panics into errors), never in a value.
 """
 import re
 from ..model import H
 from .common import *
 
-# lib name (as in impl_fxns!) -> (crate, file, dispatch fn, arity, category)
+# lib name (as in impl_fxns!) -> (crate, file, dispatch fn, arity, category, cargo feature of the operator)
 OPS = {
-    "Add": ("math", "src/ops/add.rs", "impl_add_fxn", 2, "arith"),
-    "Sub": ("math", "src/ops/sub.rs", "impl_sub_fxn", 2, "arith"),
-    "Mul": ("math", "src/ops/mul.rs", "impl_mul_fxn", 2, "arith"),
-    "Div": ("math", "src/ops/div.rs", "impl_div_fxn", 2, "arith"),
-    "Mod": ("math", "src/ops/modulus.rs", "impl_mod_fxn", 2, "arith"),
-    "Pow": ("math", "src/ops/pow.rs", "impl_pow_fxn", 2, "arith"),
-    "Negate": ("math", "src/ops/negate.rs", "impl_neg_fxn", 1, "arith"),
-    "GT": ("compare", "src/gt.rs", "impl_gt_fxn", 2, "compare"),
-    "GTE": ("compare", "src/gte.rs", "impl_gte_fxn", 2, "compare"),
-    "LT": ("compare", "src/lt.rs", "impl_lt_fxn", 2, "compare"),
-    "LTE": ("compare", "src/lte.rs", "impl_lte_fxn", 2, "compare"),
-    "EQ": ("compare", "src/eq.rs", "impl_eq_fxn", 2, "compare"),
-    "NEQ": ("compare", "src/neq.rs", "impl_neq_fxn", 2, "compare"),
-    "And": ("logic", "src/and.rs", "impl_and_fxn", 2, "logic"),
-    "Or": ("logic", "src/or.rs", "impl_or_fxn", 2, "logic"),
-    "Xor": ("logic", "src/xor.rs", "impl_xor_fxn", 2, "logic"),
-    "Not": ("logic", "src/not.rs", "impl_not_fxn", 1, "logic"),
+    "Add": ("math", "src/ops/add.rs", "impl_add_fxn", 2, "arith", "add"),
+    "Sub": ("math", "src/ops/sub.rs", "impl_sub_fxn", 2, "arith", "sub"),
+    "Mul": ("math", "src/ops/mul.rs", "impl_mul_fxn", 2, "arith", "mul"),
+    "Div": ("math", "src/ops/div.rs", "impl_div_fxn", 2, "arith", "div"),
+    "Mod": ("math", "src/ops/modulus.rs", "impl_mod_fxn", 2, "arith", "mod"),
+    "Pow": ("math", "src/ops/pow.rs", "impl_pow_fxn", 2, "arith", "pow"),
+    "Negate": ("math", "src/ops/negate.rs", "impl_neg_fxn", 1, "arith", "neg"),
+    "GT": ("compare", "src/gt.rs", "impl_gt_fxn", 2, "compare", "gt"),
+    "GTE": ("compare", "src/gte.rs", "impl_gte_fxn", 2, "compare", "gte"),
+    "LT": ("compare", "src/lt.rs", "impl_lt_fxn", 2, "compare", "lt"),
+    "LTE": ("compare", "src/lte.rs", "impl_lte_fxn", 2, "compare", "lte"),
+    "EQ": ("compare", "src/eq.rs", "impl_eq_fxn", 2, "compare", "eq"),
+    "NEQ": ("compare", "src/neq.rs", "impl_neq_fxn", 2, "compare", "neq"),
+    "And": ("logic", "src/and.rs", "impl_and_fxn", 2, "logic", "and"),
+    "Or": ("logic", "src/or.rs", "impl_or_fxn", 2, "logic", "or"),
+    "Xor": ("logic", "src/xor.rs", "impl_xor_fxn", 2, "logic", "xor"),
+    "Not": ("logic", "src/not.rs", "impl_not_fxn", 1, "logic", "not"),
 }
 SYMBOL = {"Add": "+", "Sub": "-", "Mul": "*", "Div": "/", "Mod": "%", "Pow": "^", "Negate": "-x", "GT": ">", "GTE": ">=",
           "LT": "<", "LTE": "<=", "EQ": "==", "NEQ": "!=", "And": "&&", "Or": "||", "Xor": "xor", "Not": "!"}
+KIND_FEATURE = {"R64": "r64", "C64": "c64", "String": "string", "bool": "bool"}
 
-# the (operator, kind) arms of the pinned tree: an arm that disappears from the source is still expected (property:
-# "if an operator accepts scalars of a kind ..." is about the documented operator set)
 FORM_PAIRS = [("S", "S"), ("S", "RD"), ("S", "VD"), ("S", "MD"), ("RD", "S"), ("VD", "S"), ("MD", "S"), ("RD", "RD"), ("VD", "VD"),
               ("MD", "MD"), ("MD", "VD"), ("VD", "MD"), ("MD", "RD"), ("RD", "MD")]
+FOLD = {"sv": FORM_PAIRS[0:7], "vv": FORM_PAIRS[7:10], "mv": FORM_PAIRS[10:14]}
 UN_FORMS = ["S", "RD", "VD", "MD"]
+SLICE_BASE = ["bool", "string", "matrixd", "vectord", "row_vectord", "functions", "compiler"]
 
 
 def shapes_for(lf, rf, variant):
-    """concrete operand shapes for a form pair.  variant 0/1 picks among the allowed sizes (seed / thorough)."""
-    n = 2 if variant == 0 else 3
-    md = (2, 2) if variant == 0 else (2, 3)
-    if variant == 2:
-        md = (3, 2)
-        n = 3
+    """concrete operand shapes for a form pair; variant picks among the allowed sizes"""
+    n = [2, 3, 3][variant]
+    md = [(2, 2), (2, 3), (3, 2)][variant]
+
     def shp(f, other_md):
         if f == "S":
             return (1, 1)
@@ -58,6 +62,10 @@ def shapes_for(lf, rf, variant):
     r = shp(rf, md if lf == "MD" and rf != "MD" else None)
     out = (max(l[0], r[0]), max(l[1], r[1]))
     return l, r, out
+
+
+def out_form(lf, rf):
+    return "S" if (lf == "S" and rf == "S") else ("MD" if "MD" in (lf, rf) else (lf if lf != "S" else rf))
 
 
 def oracle(lib, t, a, b):
@@ -80,7 +88,6 @@ def oracle(lib, t, a, b):
         return "(%s %% %s)" % (a, b), None, t
     if lib == "Pow":
         if cls == "int":
-            # exponent bound keeps num_traits' square-and-multiply loop short; the result must be representable
             return ("%s.checked_pow(%s as u32).unwrap()" % (a, b),
                     "(%s as u32) <= 3 && %s.checked_pow(%s as u32).is_some()" % (b, a, b), t)
         return "num_traits::Pow::pow(%s, %s)" % (a, b), None, t
@@ -110,67 +117,91 @@ def struct_name(lib, lf, rf, t, cat):
 
 
 def out_access(form, i, j):
-    return "*o" if form == "S" else "o[(%d,%d)]" % (i, j)
+    return "(*o)" if form == "S" else "o[(%d,%d)]" % (i, j)
 
 
-def gen_bin_l1(lib, t, lf, rf, variant, tier):
-    crate, relp, fxn, _, cat = OPS[lib]
-    ls, rs, os_ = shapes_for(lf, rf, variant)
-    nl, nr = ls[0] * ls[1], rs[0] * rs[1]
-    of = "S" if (lf == "S" and rf == "S") else ("MD" if "MD" in (lf, rf) else (lf if lf != "S" else rf))
-    a0, _, ot = oracle(lib, t, "x", "y")
-    body = []
-    body.append(sym_array(t, "l", nl))
-    body.append(sym_array(t, "r", nr))
-    pres, checks, checks2, unchanged = [], [], [], []
-    scrib = []
-    k = 0
+def case_tag(lf, rf, ls, rs):
+    return "%s%dx%d.%s%dx%d" % (lf.lower(), ls[0], ls[1], rf.lower(), rs[0], rs[1])
+
+
+def elem_checks(lib, t, lf, rf, ls, rs, os_, of, acc):
+    """acc(i,j) -> rust expr reading output element (i,j).  returns (preconditions, checks)"""
+    pres, checks = [], []
+    _, _, ot = oracle(lib, t, "x", "y")
     for j in range(os_[1]):
         for i in range(os_[0]):
             a = "l[%d]" % idx(lf, ls, i, j)
             b = "r[%d]" % idx(rf, rs, i, j)
+            if t == "String":
+                a, b = a + ".clone()", b + ".clone()"
             e, pre, _ = oracle(lib, t, a, b)
-            if pre:
+            if pre and pre not in pres:
                 pres.append(pre)
-            checks.append(eq_expr(ot, out_access(of, i, j), e))
-            k += 1
+            checks.append(eq_expr(ot, acc(i, j), e))
+    return pres, checks, ot
+
+
+def l1_case(lib, t, lf, rf, variant):
+    crate, relp, fxn, _, cat, feat = OPS[lib]
+    ls, rs, os_ = shapes_for(lf, rf, variant)
+    nl, nr = ls[0] * ls[1], rs[0] * rs[1]
+    of = out_form(lf, rf)
+    tag = case_tag(lf, rf, ls, rs)
+    pres, checks, ot = elem_checks(lib, t, lf, rf, ls, rs, os_, of, lambda i, j: out_access(of, i, j))
+    b = [sym_array(t, "l", nl), sym_array(t, "r", nr)]
     if pres:
-        body.append("kani::assume(%s);" % " && ".join(sorted(set(pres), key=pres.index)))
-    body.append("let lc = Ref::new(%s); let rc = Ref::new(%s);" % (mk_form(lf, t, "l", ls), mk_form(rf, t, "r", rs)))
-    body.append("let f = %s { lhs: lc.clone(), rhs: rc.clone(), out: Ref::new(%s) };"
-                % (struct_name(lib, lf, rf, t, cat), mk_default(of, ot, os_, default_of(ot))))
-    body.append("f.solve();")
-    body.append("{ let o = f.out.borrow(); assert!(%s, \"VP:wrong-element\"); }" % " && ".join(checks))
-    # C19 rider: whatever a previous step left in `out` must not matter, inputs are never written
-    body.append(sym_stmt(ot, "junk"))
-    if of == "S":
-        body.append("{ let mut o = f.out.borrow_mut(); *o = junk.clone(); }")
-    else:
-        body.append("{ let mut o = f.out.borrow_mut(); o.fill(junk.clone()); }")
-    body.append("f.solve();")
-    body.append("{ let o = f.out.borrow(); assert!(%s, \"VP:resolve-differs\"); }" % " && ".join(checks))
+        b.append("kani::assume(%s);" % " && ".join(pres))
+    b.append("let lc = Ref::new(%s); let rc = Ref::new(%s);" % (mk_form(lf, t, "l", ls), mk_form(rf, t, "r", rs)))
+    b.append("let f = %s { lhs: lc.clone(), rhs: rc.clone(), out: Ref::new(%s) };"
+             % (struct_name(lib, lf, rf, t, cat), mk_default(of, ot, os_, default_of(ot))))
+    b.append("f.solve();")
+    b.append("{ let o = f.out.borrow(); assert!(%s, \"VP:wrong-element:%s\"); }" % (" && ".join(checks), tag))
+    b.append(sym_stmt(ot, "junk"))
+    b.append("{ let mut o = f.out.borrow_mut(); %s }" % ("*o = junk.clone();" if of == "S" else "o.fill(junk.clone());"))
+    b.append("f.solve();")
+    b.append("{ let o = f.out.borrow(); assert!(%s, \"VP:resolve-differs:%s\"); }" % (" && ".join(checks), tag))
     lchk = " && ".join(eq_expr(t, ("(*lc.borrow())" if lf == "S" else "lc.borrow()[%d]" % q), "l[%d]" % q) for q in range(nl))
     rchk = " && ".join(eq_expr(t, ("(*rc.borrow())" if rf == "S" else "rc.borrow()[%d]" % q), "r[%d]" % q) for q in range(nr))
-    body.append("assert!(%s && %s, \"VP:input-modified\");" % (lchk, rchk))
-    body.append("kani::cover!(true, \"VP:reached\");")
-    body.append("forget(f); forget(lc); forget(rc);")
-    name = "c01_l1_%s_%s_%s_%s_%dx%d" % (lib.lower(), t.lower(), lf.lower(), rf.lower(), os_[0], os_[1])
-    key = "L1/%s<%s>/%s.%s" % (lib, t, lf, rf)
-    return H(name, "    " + "\n    ".join(body), (crate, relp), domain="accept", key=key,
-             desc="%s on %s, %s(%dx%d) %s %s(%dx%d): every output element equals the scalar operator on the broadcast operands; re-solve idempotent; inputs unchanged"
-                  % (SYMBOL[lib], t, lf, ls[0], ls[1], SYMBOL[lib], rf, rs[0], rs[1]),
-             functions=["%s%s%s<%s>::solve (%s/%s: impl_fxns! wiring + kernel macro)" % (lib, lf, rf, t, ws.CRATES[crate], relp)],
-             bounds="lhs %dx%d, rhs %dx%d, all element values symbolic" % (ls[0], ls[1], rs[0], rs[1]),
-             unwind=max(nl, nr, os_[0] * os_[1]) + 2, tier=tier, group="%s" % lib,
-             assumptions=sorted(set(pres)))
+    b.append("assert!(%s && %s, \"VP:input-modified:%s\");" % (lchk, rchk, tag))
+    b.append("kani::cover!(true, \"VP:reached:%s\");" % tag)
+    b.append("forget(f); forget(lc); forget(rc);")
+    return "{\n      " + "\n      ".join(b) + "\n    }", pres, max(nl, nr, os_[0] * os_[1])
+
+
+def fold_cases(cases):
+    """nondeterministic case selector: CBMC explores every case, one panic does not mask the others"""
+    if len(cases) == 1:
+        return "    " + cases[0]
+    s = "    let vp_case: u8 = kani::any();\n    kani::assume((vp_case as usize) < %d);\n    match vp_case {\n" % len(cases)
+    for k, c in enumerate(cases):
+        s += "    %s => %s,\n" % (("%d" % k) if k < len(cases) - 1 else "_", c)
+    s += "    }"
+    return s
+
+
+def gen_bin_l1(lib, t, lf, rf, variant, tier):
+    crate, relp, fxn, _, cat, feat = OPS[lib]
+    c, pres, n = l1_case(lib, t, lf, rf, variant)
+    ls, rs, os_ = shapes_for(lf, rf, variant)
+    name = "c01_l1_%s_%s_%s_%s_v%d" % (lib.lower(), t.lower(), lf.lower(), rf.lower(), variant)
+    h = H(name, "    " + c, (crate, relp), domain="accept", key="L1/%s<%s>/%s.%s" % (lib, t, lf, rf),
+          desc="%s on %s, %s(%dx%d) %s %s(%dx%d): every output element equals the scalar operator on the broadcast operands; "
+               "re-solve after scribbling `out` gives the same; inputs unchanged"
+               % (SYMBOL[lib], t, lf, ls[0], ls[1], SYMBOL[lib], rf, rs[0], rs[1]),
+          functions=["%s%s%s<%s>::solve (%s/%s: impl_fxns! wiring + kernel macro)" % (lib, lf, rf, t, ws.CRATES[crate], relp)],
+          bounds="lhs %dx%d, rhs %dx%d, all element values symbolic" % (ls[0], ls[1], rs[0], rs[1]), unwind=n + 2, tier=tier,
+          group="L1/" + lib, assumptions=sorted(set(pres)))
+    h.slice = l1_slice(crate)
+    return h
 
 
 def gen_un_l1(lib, t, form, variant, tier):
-    crate, relp, fxn, _, cat = OPS[lib]
-    n = 2 if variant == 0 else 3
-    shape = {"S": (1, 1), "RD": (1, n), "VD": (n, 1), "MD": (2, 2) if variant == 0 else (2, 3)}[form]
+    crate, relp, fxn, _, cat, feat = OPS[lib]
+    n = [2, 3, 3][variant]
+    shape = {"S": (1, 1), "RD": (1, n), "VD": (n, 1), "MD": [(2, 2), (2, 3), (3, 2)][variant]}[form]
     cnt = shape[0] * shape[1]
-    body = [sym_array(t, "l", cnt)]
+    tag = "%s%dx%d" % (form.lower(), shape[0], shape[1])
+    b = [sym_array(t, "l", cnt)]
     pres, checks = [], []
     for j in range(shape[1]):
         for i in range(shape[0]):
@@ -180,44 +211,207 @@ def gen_un_l1(lib, t, form, variant, tier):
                 pres.append(pre)
             checks.append(eq_expr(t, out_access(form, i, j), e))
     if pres:
-        body.append("kani::assume(%s);" % " && ".join(pres))
+        b.append("kani::assume(%s);" % " && ".join(pres))
     mat = {"RD": "RowDVector<%s>" % t, "VD": "DVector<%s>" % t, "MD": "DMatrix<%s>" % t}.get(form)
     if lib == "Negate":
         sname = "NegateS::<%s>" % t if form == "S" else "NegateV::<%s>" % mat
     else:
         sname = "NotS::<%s>" % t if form == "S" else "NotV::<%s, %s>" % (t, mat)
-    body.append("let ac = Ref::new(%s);" % mk_form(form, t, "l", shape))
-    body.append("let f = %s { arg: ac.clone(), out: Ref::new(%s), _marker: PhantomData::default() };"
-                % (sname, mk_default(form, t, shape, default_of(t))))
-    body.append("f.solve();")
-    body.append("{ let o = f.out.borrow(); assert!(%s, \"VP:wrong-element\"); }" % " && ".join(checks))
-    body.append(sym_stmt(t, "junk"))
-    body.append("{ let mut o = f.out.borrow_mut(); %s }" % ("*o = junk;" if form == "S" else "o.fill(junk);"))
-    body.append("f.solve();")
-    body.append("{ let o = f.out.borrow(); assert!(%s, \"VP:resolve-differs\"); }" % " && ".join(checks))
-    body.append("assert!(%s, \"VP:input-modified\");" % " && ".join(
-        eq_expr(t, ("(*ac.borrow())" if form == "S" else "ac.borrow()[%d]" % q), "l[%d]" % q) for q in range(cnt)))
-    body.append("kani::cover!(true, \"VP:reached\");")
-    body.append("forget(f); forget(ac);")
-    name = "c01_l1_%s_%s_%s_%dx%d" % (lib.lower(), t.lower(), form.lower(), shape[0], shape[1])
-    return H(name, "    " + "\n    ".join(body), (crate, relp), domain="accept", key="L1/%s<%s>/%s" % (lib, t, form),
-             desc="unary %s on %s %s(%dx%d)" % (SYMBOL[lib], t, form, shape[0], shape[1]),
-             functions=["%s::solve (%s/%s)" % (sname, ws.CRATES[crate], relp)],
-             bounds="operand %dx%d, all element values symbolic" % shape, unwind=cnt + 2, tier=tier, group=lib,
-             assumptions=pres)
+    b.append("let ac = Ref::new(%s);" % mk_form(form, t, "l", shape))
+    b.append("let f = %s { arg: ac.clone(), out: Ref::new(%s), _marker: PhantomData::default() };"
+             % (sname, mk_default(form, t, shape, default_of(t))))
+    b.append("f.solve();")
+    b.append("{ let o = f.out.borrow(); assert!(%s, \"VP:wrong-element:%s\"); }" % (" && ".join(checks), tag))
+    b.append(sym_stmt(t, "junk"))
+    b.append("{ let mut o = f.out.borrow_mut(); %s }" % ("*o = junk;" if form == "S" else "o.fill(junk);"))
+    b.append("f.solve();")
+    b.append("{ let o = f.out.borrow(); assert!(%s, \"VP:resolve-differs:%s\"); }" % (" && ".join(checks), tag))
+    b.append("assert!(%s, \"VP:input-modified:%s\");" % (" && ".join(
+        eq_expr(t, ("(*ac.borrow())" if form == "S" else "ac.borrow()[%d]" % q), "l[%d]" % q) for q in range(cnt)), tag))
+    b.append("kani::cover!(true, \"VP:reached:%s\");" % tag)
+    b.append("forget(f); forget(ac);")
+    name = "c01_l1_%s_%s_%s_v%d" % (lib.lower(), t.lower(), form.lower(), variant)
+    h = H(name, "    " + "\n    ".join(b), (crate, relp), domain="accept", key="L1/%s<%s>/%s" % (lib, t, form),
+          desc="unary %s on %s %s(%dx%d)" % (SYMBOL[lib], t, form, shape[0], shape[1]),
+          functions=["%s::solve (%s/%s)" % (sname, ws.CRATES[crate], relp)],
+          bounds="operand %dx%d, all element values symbolic" % shape, unwind=cnt + 2, tier=tier, group="L1/" + lib,
+          assumptions=pres)
+    h.slice = l1_slice(crate)
+    return h
+
+
+_L1_SLICE = {}
+
+
+def l1_slice(crate):
+    """default features of the crate minus the unrelated function families of mech-math (trig, bessel, ...): they
+    share no code with the operator modules and cost two minutes of build time.  Any parsing problem -> default."""
+    if crate != "math":
+        return None
+    if crate in _L1_SLICE:
+        return _L1_SLICE[crate]
+    res = None
+    try:
+        cargo = read_repo("machines/math/Cargo.toml")
+        m = re.search(r"^default\s*=\s*\[(.*?)\]", cargo, re.M | re.S)
+        feats = re.findall(r"\"([^\"]+)\"", m.group(1))
+        md = re.search(r"^math_default\s*=\s*\[(.*?)\]", cargo, re.M | re.S)
+        fam = re.findall(r"\"([^\"]+)\"", md.group(1))
+        if "math_default" in feats and "ops_default" in fam and "ops_assign_default" in fam:
+            feats = [f for f in feats if f != "math_default"] + ["ops_default", "ops_assign_default"]
+            res = ",".join(feats)
+    except Exception:
+        res = None
+    _L1_SLICE[crate] = res
+    return res
+
+
+# ------------------------------------------------------------------------------------------------------------- L2
+def out_extract(ot, of, tag):
+    """rust: from `v: Value` produce (rows, cols, data: Vec<ot> in column-major order) without using repo accessors"""
+    var = TY_VARIANT[ot]
+    if of == "S":
+        return ("let (rows, cols, data): (usize, usize, Vec<%s>) = match &v { Value::%s(o) => (1, 1, vec![o.borrow().clone()]), "
+                "Value::Matrix%s(m) => match m { Matrix::DMatrix(o) => { let o = o.borrow(); (o.nrows(), o.ncols(), o.iter().cloned().collect()) }, "
+                "_ => { assert!(false, \"VP:wrong-result-kind:%s\"); (0, 0, Vec::new()) } }, "
+                "_ => { assert!(false, \"VP:wrong-result-kind:%s\"); (0, 0, Vec::new()) } };" % (ot, var, var, tag, tag))
+    return ("let (rows, cols, data): (usize, usize, Vec<%s>) = match &v { Value::Matrix%s(m) => match m { "
+            "Matrix::DVector(o) => { let o = o.borrow(); (o.nrows(), o.ncols(), o.iter().cloned().collect()) }, "
+            "Matrix::RowDVector(o) => { let o = o.borrow(); (o.nrows(), o.ncols(), o.iter().cloned().collect()) }, "
+            "Matrix::DMatrix(o) => { let o = o.borrow(); (o.nrows(), o.ncols(), o.iter().cloned().collect()) }, "
+            "_ => { assert!(false, \"VP:wrong-result-kind:%s\"); (0, 0, Vec::new()) } }, "
+            "_ => { assert!(false, \"VP:wrong-result-kind:%s\"); (0, 0, Vec::new()) } };" % (ot, var, tag, tag))
+
+
+def l2_accept_case(lib, t, lf, rf, variant):
+    crate, relp, fxn, arity, cat, feat = OPS[lib]
+    ls, rs, os_ = shapes_for(lf, rf, variant)
+    nl, nr = ls[0] * ls[1], rs[0] * rs[1]
+    of = out_form(lf, rf)
+    tag = case_tag(lf, rf, ls, rs)
+    pres, checks, ot = elem_checks(lib, t, lf, rf, ls, rs, os_, of, lambda i, j: "data[%d]" % (i + j * os_[0]))
+    b = [sym_array(t, "l", nl), sym_array(t, "r", nr)]
+    if pres:
+        b.append("kani::assume(%s);" % " && ".join(pres))
+    b.append("let lc = Ref::new(%s); let rc = Ref::new(%s);" % (mk_form(lf, t, "l", ls), mk_form(rf, t, "r", rs)))
+    b.append("let lv = %s; let rv = %s;" % (value_of(lf, t, "lc.clone()"), value_of(rf, t, "rc.clone()")))
+    b.append("kani::cover!(true, \"VP:reached-call:%s\");" % tag)
+    b.append("match %s(lv, rv) {" % fxn)
+    b.append("  Err(e) => { forget(e); assert!(false, \"VP:rejected-compatible:%s\"); }" % tag)
+    b.append("  Ok(f) => {")
+    b.append("    f.solve();")
+    b.append("    let v = f.out();")
+    b.append("    " + out_extract(ot, of, tag))
+    b.append("    assert!(rows == %d && cols == %d, \"VP:wrong-shape:%s\");" % (os_[0], os_[1], tag))
+    b.append("    assert!(data.len() == %d && %s, \"VP:wrong-element:%s\");" % (os_[0] * os_[1], " && ".join(checks), tag))
+    lchk = " && ".join(eq_expr(t, ("(*lc.borrow())" if lf == "S" else "lc.borrow()[%d]" % q), "l[%d]" % q) for q in range(nl))
+    rchk = " && ".join(eq_expr(t, ("(*rc.borrow())" if rf == "S" else "rc.borrow()[%d]" % q), "r[%d]" % q) for q in range(nr))
+    b.append("    assert!(%s && %s, \"VP:input-modified:%s\");" % (lchk, rchk, tag))
+    b.append("    kani::cover!(true, \"VP:reached:%s\");" % tag)
+    b.append("    forget(data); forget(v); forget(f);")
+    b.append("  }")
+    b.append("}")
+    b.append("forget(lc); forget(rc);")
+    return "{\n      " + "\n      ".join(b) + "\n    }", pres, max(nl, nr, os_[0] * os_[1])
+
+
+REJECT_SHAPES = [
+    # (lhs form, lhs shape, rhs form, rhs shape)
+    ("VD", (2, 1), "VD", (3, 1)), ("VD", (3, 1), "VD", (2, 1)),
+    ("RD", (1, 2), "RD", (1, 3)), ("RD", (1, 3), "RD", (1, 2)),
+    ("MD", (2, 2), "MD", (2, 3)), ("MD", (2, 3), "MD", (2, 2)), ("MD", (2, 2), "MD", (3, 2)), ("MD", (3, 2), "MD", (2, 3)),
+    ("MD", (2, 2), "VD", (3, 1)), ("VD", (3, 1), "MD", (2, 2)), ("MD", (2, 2), "RD", (1, 3)), ("RD", (1, 3), "MD", (2, 2)),
+    ("RD", (1, 2), "VD", (2, 1)), ("VD", (2, 1), "RD", (1, 2)),
+]
+
+
+def l2_reject_case(lib, t, lf, ls, rf, rs):
+    crate, relp, fxn, arity, cat, feat = OPS[lib]
+    nl, nr = ls[0] * ls[1], rs[0] * rs[1]
+    tag = case_tag(lf, rf, ls, rs)
+    b = [sym_array(t, "l", nl), sym_array(t, "r", nr)]
+    b.append("let lv = %s; let rv = %s;" % (value_of(lf, t, "Ref::new(%s)" % mk_form(lf, t, "l", ls)),
+                                           value_of(rf, t, "Ref::new(%s)" % mk_form(rf, t, "r", rs))))
+    b.append("kani::cover!(true, \"VP:reached-call:%s\");" % tag)
+    b.append("match %s(lv, rv) {" % fxn)
+    b.append("  Err(e) => { kani::cover!(true, \"VP:rejected-err:%s\"); forget(e); }" % tag)
+    b.append("  Ok(f) => {")
+    b.append("    f.solve();")
+    b.append("    let v = f.out();")
+    b.append("    assert!(false, \"VP:accepted-incompatible-shapes:%s\");" % tag)
+    b.append("    forget(v); forget(f);")
+    b.append("  }")
+    b.append("}")
+    return "{\n      " + "\n      ".join(b) + "\n    }", max(nl, nr)
+
+
+def file_features(crate, relp):
+    txt = read_repo("%s/%s" % (ws.CRATES[crate], relp))
+    cargo = read_repo("%s/Cargo.toml" % ws.CRATES[crate])
+    feats = set(re.findall(r"^([A-Za-z0-9_]+)\s*=\s*\[", cargo, re.M))
+    used = set()
+    # file-level cfgs only (the kind arms inside the dispatch macro invocation carry the kind feature as a literal)
+    for m in re.finditer(r"#\[cfg\(([^\]]*)\)\]", txt):
+        for f in re.findall(r"feature\s*=\s*\"(\w+)\"", m.group(1)):
+            if f in feats:
+                used.add(f)
+    return used
+
+
+def slice_for(lib, t):
+    crate, relp, fxn, arity, cat, feat = OPS[lib]
+    fs = list(SLICE_BASE)
+    fs.append(KIND_FEATURE.get(t, t))
+    fs.append(feat)
+    for f in sorted(file_features(crate, relp)):
+        if f not in ("matrix",):
+            fs.append(f)
+    if lib == "Negate":
+        fs.append("neg")
+    return ",".join(dict.fromkeys(fs))
+
+
+def gen_bin_l2_accept(lib, t, lf, rf, variant, tier):
+    crate, relp, fxn, arity, cat, feat = OPS[lib]
+    c, pres, n = l2_accept_case(lib, t, lf, rf, variant)
+    ls, rs, os_ = shapes_for(lf, rf, variant)
+    h = H("c01_l2_%s_%s_%s_%s_v%d" % (lib.lower(), t.lower(), lf.lower(), rf.lower(), variant), "    " + c, (crate, relp),
+          domain="accept", key="L2/%s<%s>/accept/%s.%s" % (lib, t, lf, rf),
+          desc="dispatch %s(lhs,rhs) on %s, %s(%dx%d) %s %s(%dx%d): accepted, broadcast shape %dx%d, every element = scalar operator, inputs unchanged"
+               % (fxn, t, lf, ls[0], ls[1], SYMBOL[lib], rf, rs[0], rs[1], os_[0], os_[1]),
+          functions=["%s (%s/%s: impl_binop_match_arms! dispatch + output allocation)" % (fxn, ws.CRATES[crate], relp),
+                     "%s%s%s<%s>::solve/out via dyn MechFunction" % (lib, lf, rf, t)],
+          bounds="lhs %dx%d, rhs %dx%d, all element values symbolic; feature slice %s" % (ls[0], ls[1], rs[0], rs[1], slice_for(lib, t)),
+          unwind=n + 2, tier=tier, group="L2/" + lib, assumptions=sorted(set(pres)), solver="kissat")
+    h.slice = slice_for(lib, t)
+    h.heavy = True
+    return h
+
+
+def gen_bin_l2_reject(lib, t, k, tier):
+    crate, relp, fxn, arity, cat, feat = OPS[lib]
+    (lf, ls, rf, rs) = REJECT_SHAPES[k]
+    c, n = l2_reject_case(lib, t, lf, ls, rf, rs)
+    h = H("c01_l2_%s_%s_reject_%s" % (lib.lower(), t.lower(), case_tag(lf, rf, ls, rs).replace(".", "_")), "    " + c, (crate, relp),
+          domain="reject", key="L2/%s<%s>/reject/%s" % (lib, t, case_tag(lf, rf, ls, rs)),
+          desc="dispatch %s(lhs,rhs) on %s with incompatible shapes %s(%dx%d), %s(%dx%d): Err or panic, never a value"
+               % (fxn, t, lf, ls[0], ls[1], rf, rs[0], rs[1]),
+          functions=["%s (%s/%s)" % (fxn, ws.CRATES[crate], relp)],
+          bounds="feature slice " + slice_for(lib, t), unwind=n + 2, tier=tier, group="L2/" + lib, solver="kissat")
+    h.slice = slice_for(lib, t)
+    return h
 
 
 def arms_in_source():
-    """(lib -> [rust element type]) as found in /repo right now"""
     found = {}
-    for lib, (crate, relp, fxn, arity, cat) in OPS.items():
+    for lib, (crate, relp, fxn, arity, cat, feat) in OPS.items():
         txt = read_repo("%s/%s" % (ws.CRATES[crate], relp))
         macro = "impl_binop_match_arms" if arity == 2 else "impl_urnop_match_arms"
         kinds = []
         for libname, arms in macro_arms(txt, macro):
             if libname != lib:
                 continue
-            for variant, target, feat in arms:
+            for variant, target, feat_ in arms:
                 if variant in VARIANT_TY:
                     kinds.append(VARIANT_TY[variant])
         found[lib] = kinds
@@ -234,49 +428,63 @@ BASELINE = {
     "EQ": ["bool"] + INTS + FLOATS + ["String", "R64", "C64"], "NEQ": ["bool"] + INTS + FLOATS + ["String", "R64", "C64"],
     "And": ["bool"], "Or": ["bool"], "Xor": ["bool"], "Not": ["bool"],
 }
+ALWAYS = {"arith": ["i16", "f64"], "compare": ["i16"], "logic": ["bool"]}
+L2_KINDS = {"arith": ["i16", "f64", "u8"], "compare": ["i16", "f64"], "logic": ["bool"]}
 
-PRELUDE = ""
 
-# quick tier: every operator x every form pair, with a fixed set of representative kinds always on and the remaining
-# kinds rotated by VERIF_SEED
-ALWAYS = {"arith": ["i16", "u8", "f64"], "compare": ["i16", "f64"], "logic": ["bool"]}
+# form pairs that together reach each of the 8 kernel macros of an operator once
+KERNEL_FORMS = [("S", "S"), ("S", "VD"), ("RD", "S"), ("VD", "VD"), ("MD", "VD"), ("VD", "MD"), ("MD", "RD"), ("RD", "MD")]
 
 
 def plan(tier, seed):
     src = arms_in_source()
     hs = []
     extracted = {}
-    for lib, (crate, relp, fxn, arity, cat) in OPS.items():
+    libs = list(OPS.keys())
+    bin_libs = [l for l in libs if OPS[l][3] == 2]
+    l1_full = bin_libs[seed % len(bin_libs)]          # this operator gets all 14 form pairs in quick
+    l2_quick = bin_libs[(seed * 7 + 1) % len(bin_libs)]  # this operator's dispatch function gets the quick-tier L2 treatment
+    for lib, (crate, relp, fxn, arity, cat, feat) in OPS.items():
         kinds = list(dict.fromkeys(BASELINE[lib] + src.get(lib, [])))
         extracted[lib] = {"kinds_in_source": src.get(lib, []), "kinds_expected": kinds}
+        simple = [k for k in kinds if kind_class(k) in ("int", "float", "bool")]
+        qk = simple[seed % len(simple)]               # the quick-tier kind of this operator rotates with the seed
         for t in kinds:
-            cls = kind_class(t)
-            if cls in ("rational", "complex", "string"):
-                base_tier = "thorough"
-            elif t in ALWAYS[cat] or (lib == "Pow" and t == "u8") or (lib == "Negate" and t == "i16"):
-                base_tier = "quick"
-            else:
-                base_tier = "rot"
             if arity == 2:
                 for (lf, rf) in FORM_PAIRS:
-                    hs.append(gen_bin_l1(lib, t, lf, rf, 0, base_tier))
-                    if (lf, rf) != ("S", "S"):
+                    q = "quick" if (t == qk and ((lf, rf) in KERNEL_FORMS or lib == l1_full)) else "thorough"
+                    hs.append(gen_bin_l1(lib, t, lf, rf, 0, q))
+                    if (lf, rf) != ("S", "S") and kind_class(t) in ("int", "float", "bool"):
                         hs.append(gen_bin_l1(lib, t, lf, rf, 1, "thorough"))
             else:
                 for form in UN_FORMS:
-                    hs.append(gen_un_l1(lib, t, form, 0, base_tier))
+                    hs.append(gen_un_l1(lib, t, form, 0, "quick" if t == qk else "thorough"))
                     if form != "S":
                         hs.append(gen_un_l1(lib, t, form, 1, "thorough"))
+        # L2: dispatch function under a per-kind slice
+        if arity == 2:
+            l2k = [k for k in L2_KINDS[cat] if k in kinds] or kinds[:1]
+            for n, t in enumerate(l2k):
+                q = "quick" if (lib == l2_quick and n == 0) else "thorough"
+                for (lf, rf) in FORM_PAIRS:
+                    hs.append(gen_bin_l2_accept(lib, t, lf, rf, 0, q))
+                for k in range(len(REJECT_SHAPES)):
+                    hs.append(gen_bin_l2_reject(lib, t, k, q))
     return {
         "harnesses": hs,
-        "quick_rot_fraction": 0.08,
         "extracted": extracted,
-        "explanation": "Kani/CBMC bounded model checking of the real generated operator structs (impl_fxns! wiring + kernel macros) "
-                       "compiled from a scratch copy of /repo's current sources; every element value is symbolic, shapes are concrete.",
-        "bounds": "operand shapes <= 3x2 / 2x3 (concrete per harness), element values: all bit patterns of the kind "
-                  "(rationals: |n|<=3, 1<=d<=3; strings: one byte in a..c; integer pow exponent <= 3)",
+        "explanation": "Kani/CBMC bounded model checking of (L1) the generated operator structs - impl_fxns! wiring + kernel macros - and "
+                       "(L2) the private dispatch functions impl_<op>_fxn with their output allocation, all compiled from a scratch copy "
+                       "of /repo's current sources; every element value is symbolic, shapes are concrete; L2 runs under a per-kind cargo "
+                       "feature slice with kissat",
+        "bounds": "operand shapes <= 3x2 / 2x3 (concrete per case), element values: all bit patterns of the kind "
+                  "(rationals: |n|<=3, 1<=d<=3; strings: one byte in a..c; integer pow exponent <= 3); L2 for kinds "
+                  + str(L2_KINDS) + "; quick tier: per operator one kind (rotated by seed) on the 8 form pairs that reach every kernel "
+                  "macro, all 14 form pairs for one rotating operator, L2 (14 accept + 14 reject cases) for one rotating operator",
         "outside": ["shapes larger than 3x2", "term(): operator token -> compiler object and the left fold over operands",
+                    "the NativeFunctionCompiler wrapper (MutableReference unwrapping, convert_to fall-back for mixed kinds)",
                     "the parser", "IEEE correctness of libm pow/fmod (oracle is the same call on the same symbolic operands)",
-                    "fixed-size storage forms (off in the default configuration)"],
-        "caps": {"quick_timeout": 240, "thorough_timeout": 900},
+                    "fixed-size storage forms (off in the default configuration)", "L2 for kinds outside the L2 list",
+                    "L2 for the unary operators"],
+        "caps": {"quick_timeout": 900, "thorough_timeout": 1800, "heavy_jobs": 5, "heavy_rss_gb": 11},
     }
